@@ -327,14 +327,18 @@ class MessageManager(interfaces.TokenInterface, interfaces.MessageManager):
 
         if retransmission_counter < message.transport_tuning.MAX_RETRANSMIT:
             self.log.info("Retransmission, Message ID: %d.", message.mid)
-            self._send_via_transport(message)
             retransmission_counter += 1
             timeout *= 2
 
+            # Registering the exchange again before sending: if the transport
+            # reports an error during the send, dispatch_error needs to find
+            # (and cancel) it, lest a stale exchange lingers for a failed
+            # request and later blocks or fails unrelated requests.
             next_retransmission = self._schedule_retransmit(
                 message, timeout, retransmission_counter
             )
             self._active_exchanges[key] = (messageerror_monitor, next_retransmission)
+            self._send_via_transport(message)
         else:
             self.log.info("Exchange timed out trying to transmit %s", message)
             del self._backlogs[message.remote]
